@@ -147,6 +147,15 @@ Theorem c11_stale_columns_safe : forall f1 f2 ls l1 l2 ls1,
 Proof. exact stale_columns_safe. Qed.
 Print Assumptions c11_stale_columns_safe.
 
+(* what the fixer relies on once a file was changed within an iteration: a location-based fix changes
+   nothing but the row of its location (same number of rows, every other row byte for byte) *)
+Theorem c11_text_fix_changes_one_row : forall content l c',
+  uao_fix content [l] = Changed c' \/ nwc_fix content [l] = Changed c' \/ nrr_fix content [l] = Changed c' ->
+  length (lines_of c') = length (lines_of content) /\
+  forall r, r <> l_row l -> get_line (lines_of c') r = get_line (lines_of content) r.
+Proof. exact text_fix_changes_one_row. Qed.
+Print Assumptions c11_text_fix_changes_one_row.
+
 Theorem c11_stale_same_row_refuted :
   exists ls l1 l2 ls1 ls2 ls2' ls3,
     l_row l1 = l_row l2 /\
